@@ -78,6 +78,31 @@ def bErrStr : BErr String → String
   | .illegalCallToPartialDeriv => "IllegalCallToPartialDeriv"
   | .logicPanic => "PANIC-logic-error"
 
+/-- inverse of `bErrStr` on the tokens of the implementation's `built err …` line -/
+def parseBErr (l : Array String) : Option (BErr String) :=
+  let args := l.toList.drop 3
+  let afterBar := ((args.dropWhile (· ≠ "|")).drop 1).map decName
+  match l.getD 2 "" with
+  | "DuplicateParameterNames" => some (.duplicateParameterNames (args.map decName))
+  | "EmptyParameters" => some .emptyParameters
+  | "FunctionParameterNotInModel" => some (.functionParameterNotInModel (decName (args.headD "~")))
+  | "InvalidDerivative" => some (.invalidDerivative (decName (args.headD "~")) afterBar)
+  | "DuplicateDerivative" => some (.duplicateDerivative (decName (args.headD "~")))
+  | "MissingDerivative" => some (.missingDerivative (decName (args.headD "~")) afterBar)
+  | "EmptyModel" => some .emptyModel
+  | "UnusedParameter" => some (.unusedParameter (decName (args.headD "~")))
+  | "IncorrectParameterCount" =>
+    match args with
+    | [a, e] => match a.toNat?, e.toNat? with
+      | some a, some e => some (.incorrectParameterCount a e)
+      | _, _ => none
+    | _ => none
+  | "CommaInParameterNameNotAllowed" => some (.commaInParameterNameNotAllowed (decName (args.headD "~")))
+  | "MissingX" => some .missingX
+  | "MissingInitialParameters" => some .missingInitialParameters
+  | "IllegalCallToPartialDeriv" => some .illegalCallToPartialDeriv
+  | _ => none
+
 def mErrStr : MErr → String
   | .unexpectedFunctionOutput e a => s!"err UnexpectedFunctionOutput {e} {a}"
   | .derivativeIndexOutOfBounds i => s!"err DerivativeIndexOutOfBounds {i}"
@@ -173,6 +198,16 @@ def handleSepModel (c : Case) : String :=
   let implTag := if implBuilt == "ok" then "ok" else if implBuilt.startsWith "err" then "err" else implBuilt
   let corr0 : Array String := if modelBuilt == implBuilt then #[] else #[s!"built:model=[{modelBuilt}]:impl=[{implBuilt}]"]
   let mon0 : Array String := if specBuilt == implTag then #[] else #[s!"built:spec-valid={valid}:impl=[{implBuilt}]"]
+  -- C15, last clause: the error the IMPLEMENTATION returned must name a defect that is present in the
+  -- call sequence (`defectB`, Core/ModelSpec; `c15_error_names_defect` shows the model always does)
+  let mon0 : Array String :=
+    if implTag == "err" then
+      match (c.firstWith "built").bind parseBErr with
+      | some e =>
+        if defectB hasCommaS (fun (f : PF) => f.arity) names calls e then mon0
+        else mon0.push s!"built:error-names-a-defect-that-is-not-present:impl=[{implBuilt}]"
+      | none => mon0.push s!"built:unknown-error-kind:impl=[{implBuilt}]"
+    else mon0
   let items := group (none : Option (FnItem String PF)) calls
   let tagB := ((implBuilt.splitOn " ").take 2 |> "_".intercalate)
   match modelRes with
